@@ -13,8 +13,12 @@ import (
 func c16Config(p *spec.Program, sortOn bool) spec.Config {
 	c := p.Config.Clone()
 	c.Sort = sortOn
-	c.TargetPackageName = "outpkg"
-	c.DefaultPackageName = "example.com/api/types"
+	if c.TargetPackageName == "" {
+		c.TargetPackageName = "outpkg"
+	}
+	if c.DefaultPackageName == "" {
+		c.DefaultPackageName = "example.com/api/types"
+	}
 	// keys with lower_snake components and deep paths, in every list option
 	for _, m := range p.Messages {
 		for _, f := range m.Fields {
@@ -376,4 +380,23 @@ func temporalKeys(p *spec.Program) []string {
 		}
 	}
 	return out
+}
+
+// QualifiedValuesProgram: the corpus with scalar option values that contain punctuation — the custom
+// duration cast type is package-qualified (fields cast to it follow), package names carry dots, dashes
+// and slashes. A value is a value on either channel.
+func QualifiedValuesProgram(p *spec.Program) *spec.Program {
+	q := cloneProgram(p)
+	const qual = "example.com/lease-api/v2/durations.Duration"
+	for mi := range q.Messages {
+		for fi := range q.Messages[mi].Fields {
+			if q.Messages[mi].Fields[fi].Cast == spec.DurationCastName {
+				q.Messages[mi].Fields[fi].Cast = qual
+			}
+		}
+	}
+	q.Config.DurationCustomType = qual
+	q.Config.DefaultPackageName = "example.com/api-types/v2.1/types"
+	q.Config.TargetPackageName = "tf_out.v2"
+	return q
 }
